@@ -360,3 +360,14 @@ Definition read_rxn (natoms : string -> Z) (ignore : bool) (data : string) : pyr
       | Ok None => if existsb (fun x => natoms smi <=? x) radicals then Err IncorrectSmiles else Ok (None, radicals)
       end
   end.
+
+(* ---------- ReactionContainer.__str__ / __eq__ / __hash__ ----------
+     __str__  = format(self)                          (cached)
+     __eq__   = isinstance(other, ReactionContainer) and str(self) == str(other)
+     __hash__ = hash(str(self))                        (cached)
+   a reaction is the three lists of molecule descriptions; the hash of a str is an opaque function (it depends on
+   PYTHONHASHSEED), a parameter of rxn_hash *)
+Definition rxn := (list fmol * list fmol * list fmol)%type.      (* reactants, reagents, products *)
+Definition rxn_str (x : rxn) : string := match x with (rs, gs, ps) => rxn_format false false rs gs ps end.
+Definition rxn_eq (a b : rxn) : bool := String.eqb (rxn_str a) (rxn_str b).
+Definition rxn_hash (str_hash : string -> Z) (a : rxn) : Z := str_hash (rxn_str a).
